@@ -54,7 +54,31 @@ def phi(alts: Sequence[Term]) -> Term:
         flat = non_rec + ([("rec",)] if len(non_rec) != len(flat) else [])
     if len(flat) == 1:
         return flat[0]
-    return ("phi", tuple(sorted(flat, key=repr)))
+    return ("phi", tuple(_stable_order(flat)))
+
+
+def _shallow(t: Any, d: int = 4) -> str:
+    if not isinstance(t, tuple):
+        return repr(t)
+    if d == 0:
+        return str(t[0]) if t and isinstance(t[0], str) else "_"
+    return "(" + ",".join(_shallow(x, d - 1) for x in t[:6]) + ")"
+
+
+def _stable_order(flat: List[Term]) -> List[Term]:
+    """deterministic order of alternatives without printing whole (possibly huge) terms: a depth-bounded key first,
+    the full rendering only to separate alternatives that agree on it"""
+    keyed = sorted(((_shallow(a), i) for i, a in enumerate(flat)))
+    out: List[Term] = []
+    i = 0
+    while i < len(keyed):
+        j = i
+        while j + 1 < len(keyed) and keyed[j + 1][0] == keyed[i][0]:
+            j += 1
+        grp = [flat[k] for _s, k in keyed[i:j + 1]]
+        out.extend(grp if len(grp) == 1 else sorted(grp, key=repr))
+        i = j + 1
+    return out
 
 
 def upd(t: Term, fields: Dict[str, Term]) -> Term:
@@ -116,6 +140,38 @@ def subst(t: Any, mapping: Dict[Term, Term]) -> Any:
             return mapping[t]
         return tuple(subst(x, mapping) for x in t)
     return t
+
+
+def splice_literals(t: Any, _memo: Optional[Dict[int, Any]] = None) -> Any:
+    """after parameters were bound: `[f(v) for v in (a, b)]` is `[f(a), f(b)]`, `[x, *[y, z]]` is `[x, y, z]`, and a
+    bound method that was handed to a helper and called there (`visitor(node)` with visitor := self.generic_visit)
+    is the visit it stands for.  Shared sub-terms are processed once; unchanged terms keep their identity."""
+    if not isinstance(t, tuple) or not t:
+        return t
+    if _memo is None:
+        _memo = {}
+    k = id(t)
+    hit = _memo.get(k)
+    if hit is not None and hit[0] is t:
+        return hit[1]
+    kids = [splice_literals(x, _memo) for x in t]
+    r = t if all(a is b for a, b in zip(kids, t)) else tuple(kids)
+    if len(r) >= 4 and r[0] == "app" and isinstance(r[1], tuple) and len(r[1]) == 3 and r[1][0] == "attr" and isinstance(r[1][1], tuple) and r[1][1][:1] == ("param",) and r[1][2] in ("visit", "generic_visit") and len(r[2]) == 1 and not r[3]:
+        r = ("visit" if r[1][2] == "visit" else "gvisit", r[2][0])
+    elif len(r) == 4 and r[0] == "comp" and r[1] == "ListComp" and len(r[3]) == 1:
+        it, conds = r[3][0]
+        if isinstance(it, tuple) and it and it[0] in ("tuple", "list") and not conds:
+            r = ("list", tuple(splice_literals(subst(r[2], {("elem", it): x}), _memo) for x in it[1]))
+    elif len(r) == 2 and r[0] in ("list", "tuple") and isinstance(r[1], tuple) and any(isinstance(x, tuple) and len(x) == 3 and x[0] == "op" and x[1] == "Starred" and x[2][0][0] in ("list", "tuple") for x in r[1]):
+        out = []
+        for x in r[1]:
+            if isinstance(x, tuple) and len(x) == 3 and x[0] == "op" and x[1] == "Starred" and x[2][0][0] in ("list", "tuple"):
+                out.extend(x[2][0][1])
+            else:
+                out.append(x)
+        r = (r[0], tuple(out))
+    _memo[k] = (t, r)
+    return r
 
 
 def root_of(t: Term) -> Term:
@@ -965,11 +1021,14 @@ class FuncAnalysis:
         a = callee.node.args
         pos = [x.arg for x in a.posonlyargs + a.args]
         binding: Dict[Term, Term] = {}
+        extra: List[Term] = []
         for i, t in enumerate(args):
             if i < len(pos):
                 binding[("param", pos[i])] = t
             elif a.vararg:
-                pass
+                extra.append(t)
+        if a.vararg and not any(t[0] == "op" and t[1] == "Starred" for t in args):
+            binding[("param", a.vararg.arg)] = ("tuple", tuple(extra))
         for k, v in kws:
             if k is not None:
                 binding[("param", k)] = v
@@ -983,7 +1042,16 @@ class FuncAnalysis:
                 binding[("param", name)] = fa.term_of(dflt, fa.cfg.entry)
         for p in callee.params:
             binding.setdefault(("param", p), ("top", f"unbound parameter {p} of {callee.name}"))
-        return subst(rt, binding)
+        out = subst(rt, binding)
+        # normalisations that only matter when a vararg tuple, a bound method or a starred literal is involved
+        need = a.vararg is not None or any(isinstance(v, tuple) and len(v) == 3 and v[0] == "attr" and v[2] in ("visit", "generic_visit") for v in binding.values())
+        if not need:
+            flag = getattr(fa, "_rt_has_starred", None)
+            if flag is None:
+                flag = any(isinstance(x, tuple) and len(x) == 3 and x[0] == "op" and x[1] == "Starred" for x in walk_all(rt))
+                fa._rt_has_starred = flag  # type: ignore
+            need = flag
+        return splice_literals(out) if need else out
 
     # ------------------------------------------------------------------ returns
     def returns(self) -> List[Tuple[ast.Return, CNode]]:
